@@ -552,12 +552,12 @@ def rule_c(ctx):
             parts = [norm(e) for e in rhs[0].value.args[0].elts]
             n_store = sum(1 for x in ast.walk(f.node) if isinstance(x, ast.Name) and isinstance(x.ctx, ast.Store) and x.id == nm)
             used = any(isinstance(c, ast.Call) and norm(c.func) == "self.linear_solve" and len(c.args) > 1 and nm in {x.id for x in ast.walk(c.args[1]) if isinstance(x, ast.Name)} for c in ast.walk(f.node))
-            ok = (parts[0].startswith("np.zeros(self.grid.num_faces") and parts[1] == f"self.mass_matrix_cells.dot({f.params[1]})"
+            ok = (parts[0].startswith("np.zeros(self.grid.num_faces") and parts[1] == f"self.mass_matrix_cells @ {f.params[1]}"
                   and parts[2].startswith("np.zeros(1") and n_store == 1 and used)
         ctx.ob(R, f.qname, "rhs = [0_faces | mass_matrix_cells . mass_diff | 0], assigned once and passed to linear_solve", ok, norm(rhs[0].value)[:160] if rhs else "", f.node)
     oc = m.func(WAS, "VariationalWassersteinDistance.optimality_conditions")
     rets = [norm(r.value) for r in ast.walk(oc.node) if isinstance(r, ast.Return)]
-    ctx.ob(R, oc.qname, "residual = rhs - broken_darcy . solution - flux block", len(rets) == 1 and rets[0].startswith(f"{oc.params[1]} - self.broken_darcy.dot({oc.params[2]}) - self.flux_embedding.dot("),
+    ctx.ob(R, oc.qname, "residual = rhs - broken_darcy . solution - flux block", len(rets) == 1 and rets[0].startswith(f"{oc.params[1]} - self.broken_darcy @ {oc.params[2]} - self.flux_embedding @ "),
            str(rets)[:160], oc.node)
 
 
